@@ -43,6 +43,7 @@ class Contract:
     ghost_after: list = []
     models: list = []
     merge_ifs = False
+    merge_calls = ()       # names of (nested / module) functions: `x = f(...)` joins the normal outcomes of the inlined call into one state (ite values)
     max_paths = 4000
     frame = "off"            # 'strict': every store into a non-fresh object must be allowed by `modifies`
     modifies: list = []
@@ -81,6 +82,7 @@ class VerifyCtx:
         self.ghost_after = list(contract.ghost_after)
         self.ghost_hits: dict = {}
         self.merge_ifs = contract.merge_ifs
+        self.merge_calls = set(getattr(contract, 'merge_calls', ()) or ())
         self.max_paths = contract.max_paths
         self.models = list(contract.models)
         self.inlined: dict = {}
@@ -501,7 +503,12 @@ def _run(ctx: VerifyCtx, contract: Contract):
     st.env = {"__module__": ctx.modname, "__parent__": None, "__func__": ctx.qualname}
     ctx.state0 = st
     c = Cx(ctx, I, st)
-    contract.setup(c)
+    try:
+        contract.setup(c)
+    except (AttributeError, KeyError, IndexError, TypeError) as e:
+        # the contract's set-up reads names of the real module (tables, flags, parameters); when one is gone the contract no
+        # longer describes this code: undecided, never a violation by itself
+        raise ContractError(f"contract does not bind (setup): {type(e).__name__}: {e}")
     if hasattr(contract, "setup_loops"):
         contract.setup_loops(c)
     # vacuity: the precondition must be satisfiable
